@@ -343,6 +343,13 @@ pub fn wide_schema(w: usize, with_key: bool) -> Sch {
             fields[12] = Kind { ty: Ty::I32, arr: None };
             key = 12;
         }
+        3 => {
+            // thorough tier: 32-bit cells only (schema-less access applies), arrays of two; UInt32 key at 5
+            for i in 0..24 {
+                fields.push(Kind { ty: TYS[i % 5], arr: if i % 6 == 4 { Some(2) } else { None } });
+            }
+            key = 5;
+        }
         _ => {
             // string-heavy with 8/16-bit cells so that nothing is 4-byte aligned; UInt32 key last
             for i in 0..24 {
